@@ -1,0 +1,13 @@
+//go:build verif
+
+package silence
+
+import (
+	"github.com/prometheus/alertmanager/pkg/labels"
+	pb "github.com/prometheus/alertmanager/silence/silencepb"
+)
+
+// VerifCompileMatchers runs the silence matcher compile path (matcherIndex.add) on a fresh index.
+func VerifCompileMatchers(s *pb.Silence) (labels.MatcherSet, error) {
+	return matcherIndex{}.add(s)
+}
